@@ -151,6 +151,10 @@ func (dc *ClientDnsConnection) QueryWithData(req commands.Request, timeout time.
 
 	dc.callMutex.Unlock()
 
+	if err == smux.ErrTimeout {
+		// Keep the value comparable: every retry loop tests for err == smux.ErrTimeout
+		return nil, err
+	}
 	if err != nil {
 		return nil, errors.WithStack(err)
 	}
